@@ -13,6 +13,16 @@ def sh(cmd, cwd, timeout=1800):
     return p.returncode, p.stdout
 
 
+def populate(scratch, base):
+    """copy of /repo's working tree, or - for a change recorded against an earlier commit of /repo ("base" in its
+    meta.json: a later fix: commit rewrote the lines it touches) - of that commit"""
+    if base:
+        os.makedirs(scratch, exist_ok=True)
+        subprocess.run("git -C /repo archive %s | tar -x -C %s" % (base, scratch), shell=True, check=True)
+    else:
+        subprocess.run(["rsync", "-a", "--exclude", ".git", "--exclude", "_seed", "/repo/", scratch + "/"], check=True)
+
+
 def main():
     d = os.path.abspath(sys.argv[1])
     prop = sys.argv[2]
@@ -24,7 +34,10 @@ def main():
     meta = dict(property=checks[0], checks=checks, needs=needs, ran=[])
     try:
         os.makedirs(os.path.dirname(scratch), exist_ok=True)
-        subprocess.run(["rsync", "-a", "--exclude", ".git", "--exclude", "_seed", "/repo/", scratch + "/"], check=True)
+        base = None
+        if os.path.exists(os.path.join(d, "meta.json")):
+            base = json.load(open(os.path.join(d, "meta.json"))).get("base")
+        populate(scratch, base)
         rc, out = sh(["patch", "-p1", "-s", "-i", os.path.join(d, "patch.diff")], scratch)
         meta["patch_applies"] = rc == 0
         if rc != 0:
